@@ -30,10 +30,11 @@ def _load():
 class NumEnv:
     symbolic = False
 
-    def __init__(self, values):
+    def __init__(self, values, rng=None):
         self.sm, self.base = _load()
         self.np, self.math = np, math
         self.values = values
+        self.rng = rng            # sampling mode (native sweep): an input without a value is drawn from its declared domain
         self.eps = EPS
         self.pi = math.pi
 
@@ -47,18 +48,28 @@ class NumEnv:
         return float(self.values[name])
 
     def real(self, name, lo=None, hi=None, dist=None):
+        if self.rng is not None and name not in self.values:
+            from .sampling import _draw
+            self.values[name] = _draw(self.rng, lo, hi, dist)
         v = self._get(name)
         if (lo is not None and v < lo) or (hi is not None and v > hi):
             raise OutOfDomain('%s=%r outside [%r,%r]' % (name, v, lo, hi))
         return v
 
     def reals(self, name, n, lo=None, hi=None, dist=None):
-        return [self.real('%s%d' % (name, i), lo, hi) for i in range(n)]
+        return [self.real('%s%d' % (name, i), lo, hi, dist) for i in range(n)]
 
     def angle(self, name):
+        if self.rng is not None and name not in self.values:
+            from .sampling import _draw
+            self.values[name] = _draw(self.rng, None, None, 'angle')
         return self._get(name)
 
     def unitvec(self, name, n=3):
+        if self.rng is not None and ('%s0' % name) not in self.values:
+            from .sampling import draw_unitvec
+            for i, x in enumerate(draw_unitvec(self.rng, n)):
+                self.values['%s%d' % (name, i)] = x
         v = [self._get('%s%d' % (name, i)) for i in range(n)]
         nn = math.sqrt(sum(x * x for x in v))
         if abs(nn - 1) > 1e-6:
@@ -66,6 +77,12 @@ class NumEnv:
         return [x / nn for x in v]
 
     def rot_raw(self, name, n=3):
+        if self.rng is not None and ('%s00' % name) not in self.values:
+            from .sampling import draw_rot
+            R = draw_rot(self.rng, n)
+            for i in range(n):
+                for j in range(n):
+                    self.values['%s%d%d' % (name, i, j)] = R[i][j]
         M = np.array([[self._get('%s%d%d' % (name, i, j)) for j in range(n)] for i in range(n)])
         if np.linalg.norm(M @ M.T - np.eye(n)) > 1e-6 or np.linalg.det(M) < 0:
             raise OutOfDomain('matrix %s is not a rotation' % name)
@@ -276,10 +293,10 @@ def _patch_random(draws):
     return orig
 
 
-def run_contract(cid, cfg, values):
+def run_contract(cid, cfg, values, rng=None):
     reg = load_contracts()
     c = reg[cid]
-    env = NumEnv(values)
+    env = NumEnv(values, rng)
     ck = NumChecker()
     draws = [values[k] for k in sorted((k for k in values if k[:2] == '_u' and k[2:].isdigit()), key=lambda k: int(k[2:]))]
     orig = _patch_random(draws) if draws else None
